@@ -220,6 +220,19 @@ def check_line(res, cls_name, L, R, dtxt, pv, name, cost, modes):
             okc = (cp == r) and all(dict(getattr(cp, a)) == dict(getattr(r, a)) for a in ("reac", "prod", "inact_reac", "inact_prod")) and type(cp) is type(r) and cp.name == r.name
         except Exception as ex:
             okc = "EXC %s" % type(ex).__name__
+        if okc is True and len(L) + len(R) >= 3:
+            # the same reaction built from explicitly ordered (reverse-sorted) mappings: its copy keeps that order
+            try:
+                from collections import OrderedDict
+                import chempy
+
+                rev = lambda d: OrderedDict(sorted(d.items(), reverse=True))
+                ro = getattr(chempy, cls_name)(rev(e["reac"]), rev(e["prod"]), r.param, inact_reac=rev(e["inact_reac"]), inact_prod=rev(e["inact_prod"]), name=r.name)
+                cp = ro.copy()
+                okc = (cp == ro) and all(list(getattr(cp, a).items()) == list(getattr(ro, a).items()) for a in ("reac", "prod", "inact_reac", "inact_prod"))
+            except Exception as ex:
+                okc = "EXC %s" % type(ex).__name__
+            res.evaluations += 1
         if okc is not True:
             res.violation("C12|%s.copy|not-equal" % cls_name, "copy of %r does not compare equal to the original (%r)" % (text, okc), dict(c, what="copy"), okc, True)
         # print -> parse (only without inactive groups, as the statement says)
@@ -262,6 +275,35 @@ def _sys_text(sel, how):
     else:
         out = ls + ["", "# end", ""]
     return "\n".join(out)
+
+
+def check_named_system(res, sel):
+    """reactions that carry names: the system printed without names (string(with_name=False)) parses back to an equal
+    system; printed with names it shows each name after its own reaction"""
+    from chempy import ReactionSystem, Reaction
+
+    case = dict(kind="named-system", sel=list(sel))
+    res.states += 1
+    res.transitions += len(sel)
+    res.evaluations += 2
+    res.nontrivial += 1
+    try:
+        rxns = []
+        for n, i in enumerate(sel):
+            line = SYS_POOL[i] if ";" in SYS_POOL[i] else SYS_POOL[i] + "; 7"
+            rxns.append(Reaction.from_string(line + "; name='r%d'" % n))
+        rs = ReactionSystem(rxns, substance_factory=__import__("chempy").Substance.from_formula)
+        printed = rs.string(with_name=False)
+        rs2 = ReactionSystem.from_string(printed)
+        same = [(dict(a.reac), dict(a.prod), float("%.3g" % a.param)) for a in rs.rxns] == [(dict(a.reac), dict(a.prod), a.param) for a in rs2.rxns]
+        withn = rs.string(with_name=True).strip().split("\n")
+        names_ok = len(withn) == len(sel) and all(l.endswith("; r%d" % n) for n, l in enumerate(withn)) and not any("r%d" % n in l for n, l in enumerate(printed.strip().split("\n")))
+    except Exception as e:
+        printed, same, names_ok = locals().get("printed"), "EXC %s" % type(e).__name__, True
+    ok = same is True and names_ok
+    res.outcomes["named-system-ok" if ok else "NAMED-system-broken"] += 1
+    if not ok:
+        res.violation("C12|ReactionSystem|string(with_name=False)-roundtrip", "system of named reactions printed without names as %r does not parse back to an equal system (%r; names placed correctly: %r)" % (printed, same, names_ok), case, same, True)
 
 
 def check_system(res, sel, how):
@@ -319,6 +361,8 @@ def run_chunk(chunk, tier):
             for rest in itertools.permutations(others, n - 1):
                 for how in INTERLEAVE:
                     check_system(res, (first,) + rest, how)
+                if n <= 2:
+                    check_named_system(res, (first,) + rest)
         res.sample(dict(system=_sys_text((first, others[0]), "comment-between")))
         return res
     layer, cls, N, lc, j, J = chunk
@@ -341,7 +385,9 @@ def run_chunk(chunk, tier):
 
 def replay(case):
     res = Result()
-    if case.get("kind") == "system":
+    if case.get("kind") == "named-system":
+        check_named_system(res, tuple(case["sel"]))
+    elif case.get("kind") == "system":
         check_system(res, tuple(case["sel"]), case["how"])
     else:
         L = tuple(tuple(t) for t in case["L"])
